@@ -56,16 +56,80 @@ def wrap(pos, t):
         return "", "[null, !vector {items: %s}]" % t
     if pos == "vector_of_vector":
         return "", "!vector {items: !vector {items: %s}}" % t
+    # ---- the edited type sits in a record that the protocol reaches only through a type argument of a generic
+    PR = "ProbeRec: !record\n  fields:\n    k: int\n    p: %s\n" % t
+    if pos == "generic_arg":
+        return PR, "G<ProbeRec>"
+    if pos == "second_instantiation":             # an earlier step instantiates the same generic with another argument
+        return PR + "#STEP pre: G<int>\n", "G<ProbeRec>"
+    if pos == "third_instantiation":
+        return PR + "#STEP pre: G<int>\n#STEP pre2: G<string>\n", "G<ProbeRec>"
+    if pos == "nested_generic_arg":
+        return PR, "G<G<ProbeRec>>"
+    if pos == "generic_alias_arg":
+        return PR + "GV<T>: T*\n", "GV<ProbeRec>"
+    if pos == "second_instantiation_alias":
+        return PR + "GV<T>: T*\n#STEP pre: GV<int>\n", "GV<ProbeRec>"
+    if pos == "second_instantiation_in_record":   # both instantiations inside one record, the edited one last
+        return PR + "Holder: !record\n  fields:\n    h1: G<int>\n    h2: G<ProbeRec>\n", "Holder"
+    if pos == "union_case_record":
+        return PR, "[int, ProbeRec]"
+    if pos == "map_value_record":
+        return PR, "!map {keys: string, values: ProbeRec}"
     if pos == "field_of_nested_record":
         return "ProbeRec: !record\n  fields:\n    k: int\n    p: %s\nOuterProbe: !record\n  fields:\n    o: ProbeRec\n    z: string\n" % t, "OuterProbe"
     raise KeyError(pos)
 
 
 def model(defs, probe, steps_before="    first: int\n", steps_after="    last: Color\n", extra=""):
+    # "#STEP name: type" lines among the definitions become protocol steps in front of `probe`
+    for l in [l for l in defs.split("\n") if l.startswith("#STEP ")]:
+        steps_before += "    %s\n" % l[6:]
+    defs = "".join(l + "\n" for l in defs.split("\n") if l and not l.startswith("#STEP "))
     return BASE_DEFS + defs + extra + "P: !protocol\n  sequence:\n%s    probe: %s\n%s" % (steps_before, probe, steps_after)
 
 
+RECORD_EDITS = {
+    "add_optional_field": lambda r: r + "    d: string?\n",
+    "remove_optional_field": lambda r: r.replace("    c: float?\n", ""),
+    "reorder_fields": lambda r: "Data: !record\n  fields:\n    b: string\n    c: float?\n    a: int\n",
+    "add_required_field": lambda r: r + "    d: string\n",
+    "remove_required_field": lambda r: r.replace("    b: string\n", ""),
+    "change_field_type_breaking": lambda r: r.replace("    b: string\n", "    b: !vector {items: string}\n"),
+    "change_field_type_partial": lambda r: r.replace("    a: int\n", "    a: long\n"),
+}
+
+
+def wrap_def(pos, name):
+    """a named definition `name` used at a position -> (extra definitions, probe type)"""
+    if pos == "step":
+        return "", name
+    if pos == "generic_arg":
+        return "", "G<%s>" % name
+    if pos == "second_instantiation":
+        return "#STEP pre: G<int>\n", "G<%s>" % name
+    if pos == "second_instantiation_alias":
+        return "GV<T>: T*\n#STEP pre: GV<int>\n", "GV<%s>" % name
+    if pos == "second_instantiation_in_record":
+        return "Holder: !record\n  fields:\n    h1: G<int>\n    h2: G<%s>\n" % name, "Holder"
+    if pos == "vector_item":
+        return "", "!vector {items: %s}" % name
+    if pos == "field_of_record":
+        return "Outer: !record\n  fields:\n    z: string\n    o: %s\n" % name, "Outer"
+    if pos == "union_case_record":
+        return "", "[int, %s]" % name
+    if pos == "optional":
+        return "", "[null, %s]" % name
+    if pos == "stream_item":
+        return "", "!stream {items: %s}" % name
+    raise KeyError(pos)
+
+
 def make_pair(edit, pos):
+    if pos != "definition" and edit in RECORD_EDITS:
+        rec = "Data: !record\n  fields:\n    a: int\n    b: string\n    c: float?\n"
+        d, pr = wrap_def(pos, "Data")
+        return model(rec + d, pr), model(RECORD_EDITS[edit](rec) + d, pr)
     if pos != "definition":
         told, tnew = TYPE_EDITS[edit]
         d0, p0 = wrap(pos, told)
